@@ -1,5 +1,19 @@
 from vcommon import Suite
 
+
+def rewrite_os_for_c10(dst):
+    """In the scratch copy only, import lines only: `"os"` of internal/counter (file.go, counter.go) and of
+    internal/mmap goes through harness/shim/vosy (yield point of the deterministic scheduler + numbered fault
+    point at every file-system call; plain package os when neither is active)."""
+    for d, names in ((dst / "internal" / "counter", ("file.go", "counter.go")), (dst / "internal" / "mmap", None)):
+        for p in d.glob("*.go"):
+            if p.name.endswith("_test.go") or (names and p.name not in names):
+                continue
+            t = p.read_text()
+            t2 = t.replace('\t"os"\n', '\tos "golang.org/x/telemetry/internal/verifh/shim/vosy"\n')
+            if t2 != t:
+                p.write_text(t2)
+
 SPEC = {
     "id": "C10",
     "title": "Written counter files conform to the documented v1 on-disk format",
@@ -7,7 +21,7 @@ SPEC = {
     "suites": [
         Suite(name="layout", harness="vh_layout", runner="layout",
               model_deps=["theories/Model/Layout.vo", "theories/Model/Parse.vo", "theories/Model/LayoutRef.vo"],
-              quick_n=500, thorough_n=6000, timeout=3000,
+              quick_n=500, thorough_n=6000, timeout=3000, rewrite=rewrite_os_for_c10,
               rule="cases: real place on (hdrLen, limit, namelen) incl. limits around page ends, unaligned, near 2^32 (55%); "
                    "real hash (10%); real mappedHeader (5%); operation sequences through the real mappedFile API "
                    "(openMapped, newCounter, Add on the returned pointer, extend, close/reopen incl. foreign metadata) or the "
